@@ -1,7 +1,11 @@
 """C01 — script evaluation agrees with the reference stack-machine semantics."""
 PROP = dict(
     modules=["CG.Props.C01"],
-    required_theorems=["C01_opcode_table", "C01_dispatch", "C01_num_roundtrip", "C01_verdict", "C01_num2bin_defect"],
+    required_theorems=["C01_opcode_table", "C01_dispatch", "C01_num_roundtrip", "C01_verdict", "C01_num2bin_defect",
+                       "C01_value_eq_spec", "C01_encode_eq_spec", "C01_results_minimal", "C01_minimal_unique", "C01_small_num_agree",
+                       "C01_encodeNum_eq", "C01_decodeBool_iff", "C01_lshift_spec", "C01_rshift_spec", "C01_exec_eq_spec",
+                       "C01_num2bin_eq_spec_partial", "C01_run_eq_spec_modulo_num2bin", "C01_coreEval_eq_spec_no_num2bin",
+                       "C01_structured_flow"],
     rule="c01.eval / c01.verdict: (a) scripts from a stack-shape-aware grammar (nested IF/NOTIF/ELSE/ENDIF, all four push "
          "classes, boundary operand pool: empty, +-0, non-minimal, +-(2^(8k-1)-1), +-2^(8k-1), up to 600 bytes; CHECKSIG/"
          "CHECKMULTISIG/CLTV/CSV with scripted checker outcomes), both rule sets; (b) every opcode sequence of length <= 2 and "
@@ -20,8 +24,10 @@ PROP = dict(
 CLAIM = dict(
     text="Lean model of core_eval/eval/check_multisig/remove_sig/next_op/skip_branch and of the number codecs and shifts, compared "
          "on every run with the real interpreter on ~90k scripts (verdict, both stacks, checker call log): impl = model exactly. "
-         "Theorems: number codec round trip for all integers, verdict rule, opcode table of the current tree = BSV assignments, "
-         "and (growing) model = reference semantics per opcode. NUM2BIN's sign placement is a recorded known finding with a "
+         "37 theorems: byte-level number codec = closed-form value/minimal encoding for all integers (round trip, minimality, "
+         "uniqueness), lshift/rshift = shifts of the big-endian number for every length and amount, model step = reference step for "
+         "every opcode except NUM2BIN (partial there), whole runs equal modulo NUM2BIN, verdict rule, structured-flow theorem (flag "
+         "machine = big-step semantics of the IF/ELSE/ENDIF tree), opcode table of the current tree = BSV assignments. NUM2BIN's sign placement is a recorded known finding with a "
          "kernel-checked witness.",
     note="Trusted: Lean kernel; differential tie bounded by the generators; BigInt = Int; hash crates are parameters.",
 )
